@@ -938,7 +938,7 @@ func printCallgrind(w io.Writer, rpt *Report) error {
 	nodeNames := getDisambiguatedNames(g)
 
 	fmt.Fprintln(w, "positions: instr line")
-	fmt.Fprintln(w, "events:", o.SampleType+"("+o.OutputUnit+")")
+	fmt.Fprintln(w, "events:", callgrindLine(o.SampleType+"("+o.OutputUnit+")"))
 
 	objfiles := make(map[string]int)
 	files := make(map[string]int)
@@ -1027,6 +1027,7 @@ func getDisambiguatedNames(g *graph.Graph) map[*graph.Node]string {
 // unique index. For names previously seen returns "(N)" where N is
 // the index returned the first time.
 func callgrindName(names map[string]int, name string) string {
+	name = callgrindLine(name)
 	if name == "" {
 		return ""
 	}
@@ -1036,6 +1037,13 @@ func callgrindName(names map[string]int, name string) string {
 	id := len(names) + 1
 	names[name] = id
 	return fmt.Sprintf("(%d) %s", id, name)
+}
+
+// callgrindLine makes s usable as a name in the line-oriented callgrind
+// format: a name cannot contain a newline, and blanks before it are skipped
+// by readers, so a name of only blanks would read as a reference "(N)".
+func callgrindLine(s string) string {
+	return strings.TrimLeft(strings.ReplaceAll(s, "\n", " "), " \t")
 }
 
 // callgrindAddress implements the callgrind subposition compression scheme if
